@@ -393,7 +393,7 @@ class Gen(object):
         if ty == BOOL:
             return T(om.boolean(r.random() < 0.5), BOOL)
         if ty == REAL:
-            return T(om.real(r.choice(('1.5', '0.25', '10.0'))), REAL)
+            return T(om.real(r.choice(('1.5', '0.25', '10.0', '1e3', '25E-1', '7e+2'))), REAL)
         if ty == ENUM:
             return T(om.enum('Color', r.choice(ENUMERATORS)), ENUM)
         if ty == ENUM2:
